@@ -42,6 +42,7 @@ class C04H(Prop):
         yield "deb822-store", gen_store.store_cases(n, rng, "h")
         yield "deb822-store", gen_store.store_cases(n // 3, rng, "a", wf=False, canon=False)
 
+    empty_renames = 0
     def oracle(self, stream, fields, impl):
         if impl in ("PANIC", "HANG", "ABORT", "MISSING", "ERR"):
             return "implementation " + impl
@@ -78,7 +79,9 @@ class C04H(Prop):
                     else:
                         idx = next((i for i, (n, _) in enumerate(p) if n == k), None)
                         if idx is None: want = "3"
-                        else: p[idx] = (unhex(parts[3]), p[idx][1]); want = "2"
+                        else:
+                            p[idx] = (unhex(parts[3]), p[idx][1]); want = "2"
+                            if p[idx][1] == "": self.empty_renames += 1
             elif o == "A":
                 p = []; doc.append(p); regs[int(parts[1])] = p
             elif o == "J":
